@@ -25,6 +25,8 @@ def is_logging(node):
 def mutations(fn):
     """Yield (description, mutated FunctionDef)."""
     nodes = list(ast.walk(fn))
+    docstrings = {id(f.body[0].value) for f in nodes if isinstance(f, (ast.FunctionDef, ast.AsyncFunctionDef, ast.ClassDef)) and f.body
+                  and isinstance(f.body[0], ast.Expr) and isinstance(f.body[0].value, ast.Constant) and isinstance(f.body[0].value.value, str)}
     for idx, n in enumerate(nodes):
         if isinstance(n, ast.Compare) and len(n.ops) == 1 and type(n.ops[0]) in FLIP:
             m = copy.deepcopy(fn)
@@ -56,7 +58,7 @@ def mutations(fn):
             t = list(ast.walk(m))[idx]
             t.value = ast.Constant(value=not n.value.value)
             yield f"L{n.lineno}: return {n.value.value} -> {not n.value.value}", m
-        if isinstance(n, ast.Constant) and isinstance(n.value, str) and 0 < len(n.value) < 40 and not isinstance(getattr(n, "_parent", None), ast.Expr):
+        if isinstance(n, ast.Constant) and isinstance(n.value, str) and 0 < len(n.value) < 40 and id(n) not in docstrings:
             m = copy.deepcopy(fn)
             t = list(ast.walk(m))[idx]
             t.value = n.value + "x"
@@ -89,18 +91,24 @@ def mutations(fn):
                 yield f"L{st.lineno}: delete {type(st).__name__}", m
 
 
-def write_mutant(repo_root, module_path, qualparts, newfn, dest_root):
+def write_mutant(repo_root, module_path, qualparts, newfn, dest_root, lineno=None):
     src = open(module_path).read()
     tree = ast.parse(src)
-    def find(body, parts):
-        for i, st in enumerate(body):
-            if isinstance(st, (ast.FunctionDef, ast.AsyncFunctionDef)) and len(parts) == 1 and st.name == parts[0]:
-                body[i] = newfn
-                return True
-            if isinstance(st, ast.ClassDef) and len(parts) == 2 and st.name == parts[0]:
-                return find(st.body, parts[1:])
-        return False
-    assert find(tree.body, qualparts)
+
+    class R(ast.NodeTransformer):
+        done = 0
+
+        def visit_FunctionDef(self, node):
+            if node.name == newfn.name and node.lineno == lineno:
+                R.done += 1
+                return newfn
+            self.generic_visit(node)
+            return node
+
+        visit_AsyncFunctionDef = visit_FunctionDef
+
+    tree = R().visit(tree)
+    assert R.done == 1, (qualparts, lineno, R.done)
     rel = os.path.relpath(module_path, repo_root)
     with open(os.path.join(dest_root, rel), "w") as f:
         f.write(ast.unparse(ast.fix_missing_locations(tree)))
@@ -137,7 +145,7 @@ def main():
         try:
             shutil.copytree(os.path.join(repo.root, "xandikos"), os.path.join(tmp, "xandikos"),
                             ignore=shutil.ignore_patterns("__pycache__", "tests"))
-            write_mutant(repo.root, mod.path, parts, m, tmp)
+            write_mutant(repo.root, mod.path, parts, m, tmp, fn.lineno)
             # a mutant is killed by the first obligation that is not proved: small solver budgets are enough
             env = dict(os.environ, VERIF_REPO=tmp, PYVC_PROCS=str(max(1, 16 // args.jobs)), PYVC_JSON="1",
                        PYVC_ABS_MS=os.environ.get("PYVC_MUT_ABS_MS", "8000"), PYVC_Z3_MS="3000", PYVC_CVC5_S="5", PYVC_FAILFAST="1")
